@@ -22,6 +22,7 @@ type bOp struct {
 	Op   string   `json:"op"`
 	S    int      `json:"s"`
 	O    int      `json:"o"`
+	O2   int      `json:"o2"`
 	Keys []string `json:"keys"`
 }
 
@@ -150,6 +151,8 @@ func runEpisode(w *bufio.Writer, id string, ep bEpisode) (lines int) {
 			next += 4
 		case "merge":
 			all = append(all, s.Merge(all[op.O-1]))
+		case "merge3": // one Merge call with two operands: a.Merge(b, c)
+			all = append(all, s.Merge(all[op.O-1], all[op.O2-1]))
 		}
 		op.E = "op"
 		if op.Keys == nil {
@@ -189,6 +192,9 @@ func applicable(fields [][]string) []bOp {
 		}
 		for o := 1; o <= len(fields); o++ {
 			ops = append(ops, bOp{Op: "merge", S: s, O: o})
+			if len(fields) >= 2 {
+				ops = append(ops, bOp{Op: "merge3", S: s, O: o, O2: 1 + (o % len(fields))})
+			}
 		}
 	}
 	return ops
@@ -221,11 +227,18 @@ func applyFields(fields [][]string, op bOp) [][]string {
 				nf = append(nf, k)
 			}
 		}
-	case "merge":
+	case "merge", "merge3":
 		nf = append([]string{}, src...)
 		for _, k := range fields[op.O-1] {
 			if !has(nf, k) {
 				nf = append(nf, k)
+			}
+		}
+		if op.Op == "merge3" {
+			for _, k := range fields[op.O2-1] {
+				if !has(nf, k) {
+					nf = append(nf, k)
+				}
 			}
 		}
 	default:
@@ -341,6 +354,8 @@ func showOps(ops []bOp) string {
 			xs = append(xs, fmt.Sprintf("%s(s%d)", o.Op, o.S))
 		case "merge":
 			xs = append(xs, fmt.Sprintf("merge(s%d,s%d)", o.S, o.O))
+		case "merge3":
+			xs = append(xs, fmt.Sprintf("merge(s%d,s%d,s%d)", o.S, o.O, o.O2))
 		default:
 			xs = append(xs, fmt.Sprintf("%s(s%d,%s)", o.Op, o.S, strings.Join(o.Keys, "")))
 		}
